@@ -30,7 +30,7 @@ RULE = ("qubit and qutrit maps given by Choi matrices built from exact data by t
         "distance of channels, 0 and 1 for the channel fidelity), or a relation evaluated on such an instance; distinct = hash of the instance and call form; "
         "presentation: every call of a toqito function receives the same values in a freshly drawn presentation per array argument (C / Fortran / strided memory "
         "layout; real-valued Choi matrices as float64, integer-valued ones also as int64; real/complex pairs in both argument orders); the arrays handed over must "
-        "be untouched afterwards; the main diamond_distance / channel_fidelity / completely_bounded_trace_norm call is repeated on the same objects for one task in "
+        "be untouched afterwards; the main diamond_distance / channel_fidelity / completely_bounded_trace_norm call is repeated on the same objects for one qubit task in "
         "three and must return the same value")
 ASSUMPTIONS = [
     "toqito computes with the float Choi matrices it is given; the instance certified is their exact dyadic image (J1 - J2 is the float difference, exact image taken after the subtraction)",
@@ -411,7 +411,7 @@ def _call(fn, *a, **k):
 class Presenter:
     """calls of toqito functions for one task: every ndarray argument is handed over as the same values in a presentation drawn for this call
     (a function of the task's presentation seed and the call's key), the objects handed over must be untouched afterwards, and with
-    again=True the call is repeated on the same objects and must return the same value within tol"""
+    again=(d == 2) the call is repeated on the same objects and must return the same value within tol"""
 
     def __init__(self, pres, res, desc):
         self.pres, self.res, self.desc = pres, res, desc
@@ -425,7 +425,7 @@ class Presenter:
         name = getattr(fn, "__name__", str(fn))
         st, v = _call(fn, *args, **k)
         why = guard.modified()
-        if why is None and again and st == "ok" and prng is not None and int(prng.integers(3)) == 0 and not __import__("os").environ.get("VERIF_NO_REPEAT"):
+        if why is None and again and st == "ok" and prng is not None and int(prng.integers(3)) == 0:
             st2, v2 = _call(fn, *args, **k)   # the SAME objects again
             why = guard.modified()
             self.res.count("repeat-call/" + name)
@@ -481,7 +481,7 @@ def work_cb(task, res: Result):
         Jd = J1 - J2
         desc = dict(base, kinds=task["kinds"], J1=J1, J2=J2)
         lo, hi = _cb_interval(drv, res, Jd, d, d, kind)
-        st, v = P.call("main", diamond_distance, J1, J2, again=True, tol=2 * TAU_CB)
+        st, v = P.call("main", diamond_distance, J1, J2, again=(d == 2), tol=2 * TAU_CB)
         desc["presentation"] = P.last
         nontriv = lo is not None and lo >= 1e-2 and hi <= 2 - 1e-2
         res.case(desc, nontriv, f"diamond/{kind}/{'-'.join(task['kinds'])}/d{d}/{st}")
@@ -546,7 +546,7 @@ def work_cb(task, res: Result):
         Jf = task["J"]
         desc = dict(base, J=Jf)
         lo, hi = _cb_interval(drv, res, Jf, d, d, kind)
-        st, v = P.call("main", completely_bounded_trace_norm, Jf, again=True, tol=2 * TAU_CB)
+        st, v = P.call("main", completely_bounded_trace_norm, Jf, again=(d == 2), tol=2 * TAU_CB)
         desc["presentation"] = P.last
         res.case(desc, lo is not None and lo >= 1e-2, f"cb/herm/d{d}/{st}")
         if st == "numfail":
@@ -605,7 +605,7 @@ def work_cb(task, res: Result):
             res.violation("certified interval of a CP map does not contain the operator norm of Phi*(1) (harness error)", {"function": "cp_closed_form", "args": desc, "certified": [lo, hi], "lam_max": lam_max})
         extra = {"cp_non_tp": (not tp) and is_psd(Jf), "trace_of_ptr": tr, "lam_max": lam_max}
         for fn, name, Jarg, L, H in ((completely_bounded_trace_norm, "completely_bounded_trace_norm", Jf, lo, hi),):
-            st, v = P.call("main", fn, Jarg, again=True, tol=2 * TAU_CB)
+            st, v = P.call("main", fn, Jarg, again=(d == 2), tol=2 * TAU_CB)
             res.case(dict(desc, fn=name), L is not None and abs(tr - lam_max) >= 1e-2, f"cb/cp/d{d}/{st}")
             if st == "raise":
                 res.violation(f"{name} raises {v} on a CP map", {"function": name, "args": desc, "exception": v, **extra})
@@ -711,7 +711,7 @@ def work_cf(task, res: Result):
         res.violation("certified lower bound above certified upper bound (checker or harness unsound)", {"function": "cf_bracket", "args": desc, "certified": [lo, hi], "theorem": "cf_bracket"})
         return
     choi_fid = root_fidelity(J1 / d, J2 / d)
-    st, v = P.call("main", channel_fidelity, _as_given(J1), _as_given(J2), again=True, tol=2 * TAU_CF)
+    st, v = P.call("main", channel_fidelity, _as_given(J1), _as_given(J2), again=(d == 2), tol=2 * TAU_CF)
     desc["presentation"] = P.last
     nontriv = hi is not None and hi <= 1 - 1e-2 and (lo is None or lo >= 1e-2)
     res.case(desc, nontriv, f"cf/{desc['kind']}/{'-'.join(task['kinds'])}/d{d}/{st}")
@@ -876,9 +876,10 @@ def replay(ctx, rec):
     d = a.get("d", 2)
     res = Result()
     drv = ctx.lean()
+    P = Presenter(a.get("pres"), res, {k_: v_ for k_, v_ in a.items() if k_ not in ("J1", "J2", "J")})   # the recorded presentation seed reproduces the presentation of the main call
     if fn == "channel_fidelity" and "J1" in a:
         J1, J2 = _arr(a["J1"]), _arr(a["J2"])
-        st, v = _call(channel_fidelity, _as_given(J1), _as_given(J2))
+        st, v = P.call("main", channel_fidelity, _as_given(J1), _as_given(J2))
         lo = hi = None
         try:
             sol = solve_cf_ref(J1, J2, d, d, primal=a.get("kind") == "full-rank")
@@ -895,7 +896,7 @@ def replay(ctx, rec):
         J = _arr(a["J"])
         Jeff = dual_choi(J, d, d) if fn.endswith("spectral_norm") else J
         f = completely_bounded_spectral_norm if fn.endswith("spectral_norm") else completely_bounded_trace_norm
-        st, v = _call(f, J)
+        st, v = P.call("spectral" if fn.endswith("spectral_norm") else "main", f, J)
         lo, hi = _cb_interval(drv, res, Jeff, d, d, "replay")
         res.case(a, True, "replay/cb")
         if st != "ok" or (lo is not None and not (lo - TAU_CB <= v <= hi + TAU_CB)):
@@ -905,7 +906,7 @@ def replay(ctx, rec):
                                                                               "lam_max": float(np.max(np.linalg.eigvalsh((T + T.conj().T) / 2)))})
     elif fn == "diamond_distance" and "J1" in a:
         J1, J2 = _arr(a["J1"]), _arr(a["J2"])
-        st, v = _call(diamond_distance, J1, J2)
+        st, v = P.call("main", diamond_distance, J1, J2)
         lo, hi = _cb_interval(drv, res, J1 - J2, d, d, "replay")
         res.case(a, True, "replay/diamond")
         if st != "ok" or (lo is not None and not (lo - TAU_CB <= v <= hi + TAU_CB)):
